@@ -338,6 +338,12 @@ def run_parser(datadir, cb, dump=None, coin=None, start=None, end=None, verify=F
         except subprocess.TimeoutExpired as ex:
             # a run that does not finish is reported only if it does not finish twice (a stalled box is not a verdict)
             rc, out, err, timed_out = -999, ex.stdout or b'', ex.stderr or b'', True
+            try:
+                with open(os.path.join(WORKROOT, 'timeouts.log'), 'a') as lf:
+                    lf.write(json.dumps({'t': time.time(), 'attempt': attempt, 'args': args, 'amb': amb, 'bare': bare, 'pty': bool(use_pty),
+                                         'env': {k: v for k, v in e.items() if k.startswith('RBP_') or k.startswith('RAYON')}}) + '\n')
+            except OSError:
+                pass
             if trace and attempt == 0:
                 with open(trace) as f:
                     first = f.readline()
